@@ -101,7 +101,8 @@ fn allocate_jit_memory_unix(_src: &FuncPtrInternal, code_size: usize) -> *mut u8
             if ptr != libc::MAP_FAILED {
                 let allocated = ptr as u64;
                 let diff = allocated.abs_diff(original_addr);
-                if diff <= max_range {
+                // Strictly inside the range: a branch cannot reach exactly +max_range.
+                if diff < max_range {
                     return ptr as *mut u8;
                 } else {
                     unsafe { libc::munmap(ptr, code_size) };
@@ -165,7 +166,8 @@ fn allocate_jit_memory_windows(_src: &FuncPtrInternal, code_size: usize) -> *mut
             if !ptr.is_null() {
                 let allocated = ptr as u64;
                 let diff = allocated.abs_diff(original_addr);
-                if diff <= max_range {
+                // Strictly inside the range: a branch cannot reach exactly +max_range.
+                if diff < max_range {
                     return ptr as *mut u8;
                 } else {
                     unsafe {
